@@ -50,6 +50,7 @@ SameKey(a, b) ==
   /\ (a.k = "tm.fire" => a.tid = b.tid)
   /\ (a.k = "met" => a.m = b.m)
   /\ (a.k \in StKinds => a.ans = b.ans)
+  /\ (a.k = "crash" => a.at = b.atk)          \* where the machine was blocked: an operation, an idle select, an event
 Kept(ls) == SelectSeq(ls, LAMBDA e : e.k # "ctl.reply")
 Match ==
   LET nl == Kept(SubSeq(obs', Len(obs) + 1, Len(obs'))) IN
@@ -59,9 +60,11 @@ Match ==
   /\ lim' = lim
 
 \* the progress values the installer reported, in order, up to its outcome
+\* (up to the next crash / cut if the run never gets that far)
+InstallEnd == MinOf({j \in (l + 1)..lim : Rec[j].k \in {"inst.install", "crash", "cut"}} \cup {lim + 1})
 ProgressOfRun ==
-  LET last == MinOf({j \in (l + 1)..lim : Rec[j].k = "inst.install"})
-      idx == SelectSeq([j \in 1..(last - l) |-> l + j], LAMBDA j : Rec[j].k = "inst.prog") IN
+  LET last == InstallEnd
+      idx == SelectSeq([j \in 1..(last - 1 - l) |-> l + j], LAMBDA j : Rec[j].k = "inst.prog") IN
   [i \in 1..Len(idx) |-> Rec[idx[i]].p]
 PlanAns(a) == IF Has(a, "ok") /\ IsSome(a.ok) THEN a.ok[1] ELSE "err"
 RunOfRestart == LET r == FirstOf("restart").run IN [os |-> r.os, apps |-> r.apps]
@@ -97,7 +100,12 @@ TStep ==
   \/ (~NxStim /\ OpDone)
   \/ (Nx("pol.start") /\ P10_CanStart(NR.ans))
   \/ P10r \/ P10d_NotNow \/ P11_Started \/ P12_FirstSeen
-  \/ (st.pc = "P13" /\ HasNext("inst.install") /\ P13_InstallM(FirstOf("inst.install").ans.results, ProgressOfRun, FirstOf("inst.install").ans.pmode))
+  \/ (st.pc = "P13" /\ Nx("inst.begin")
+        /\ IF InstallEnd <= lim /\ Rec[InstallEnd].k = "inst.install"
+             THEN P13_InstallM(Rec[InstallEnd].ans.results, ProgressOfRun, Rec[InstallEnd].ans.pmode)
+             \* the run is crashed or cut while progress is delivered: the outcome is never seen
+             ELSE P13_InstallM([i \in 1..Len(Offered(st.ck.doc)) |-> "i"], ProgressOfRun,
+                               IF \E j \in (l + 1)..(InstallEnd - 1) : Rec[j].k = "inst.prog.ret" THEN "seq" ELSE "conc"))
   \/ P15_AppEvents \/ P16_Complete \/ P17 \/ P18_Errors
   \/ (Nx("pol.rbneeded") /\ P20_Needed(NR.ans))
   \/ S3_Ok \/ S4_Err \/ S5_Close
@@ -133,6 +141,7 @@ CutAt ==
   /\ \E i \in 1..new :
        /\ \A j \in 1..i : SameKey(obs[ki[m + j]], Rec[l + j])
        /\ l + i < lim /\ Rec[l + i + 1].k \in {"crash", "cut"}
+       /\ (Rec[l + i + 1].k = "crash" => Rec[l + i + 1].atk = obs[ki[m + i]].k)
        \* (replies the step logs right after an EVENT were sent before it was taken; after an operation's line they
        \* are what happens once it completes, which it never does - unless the model marks them `early`)
        /\ LET p0 == ki[m + i]
